@@ -19,7 +19,7 @@ func init() { engine.Register(c09{}) }
 
 func (c09) ID() string { return "C09" }
 
-var c09Atoms = []string{"true", "false", "x", "é", "_", "0", "1", "9", "0x", "0b", "e", "E", ".", "+", "-", "<", "=", "<=", "!", "?", ":", ",", "(", "[", "\"", "\\", "`", "'", " ", "\t", "\n", "and", "not", "in", "t"}
+var c09Atoms = []string{"true", "false", "x", "é", "_", "0", "1", "9", "0x", "0b", "e", "E", ".", "+", "-", "<", "=", "<=", "!", "?", ":", ",", "(", "[", "\"", "\\", "`", "'", " ", "\t", "\n", "and", "not", "in", "t", "`\n\n`", "'\n \n'", "\"a\nb\n\""}
 
 var c09OpSets = map[string][]ref.Op{
 	"builtin": nil, // filled from the real built-in table
